@@ -1004,6 +1004,9 @@ fn gen_deep(ctx: &GenCtx) -> Vec<Value> {
     for depth in [200usize, 3000, if big { 20000 } else { 6000 }] {
         v.push(json!({"kind": "embedded_sig_v6", "depth": depth, "stack_kib": 2048}));
     }
+    for depth in [200usize, 3000] {
+        v.push(json!({"kind": "embedded_sig_mixed", "depth": depth, "stack_kib": 2048}));
+    }
     for depth in [200usize, 2000, if big { 20000 } else { 5000 }] {
         v.push(json!({"kind": "compressed", "depth": depth, "stack_kib": 2048}));
     }
@@ -1022,12 +1025,16 @@ fn subpacket_len(n: usize) -> Vec<u8> {
     }
 }
 
-fn deep_artifact(kind: &str, depth: usize) -> Vec<u8> {
+pub fn deep_artifact(kind: &str, depth: usize) -> Vec<u8> {
     match kind {
-        "embedded_sig_v4" | "embedded_sig_v6" => {
-            let v6 = kind.ends_with("v6");
+        "embedded_sig_v4" | "embedded_sig_v6" | "embedded_sig_mixed" => {
+            let mixed = kind.ends_with("mixed");
+            let all_v6 = kind.ends_with("v6");
             let tail: &[u8] = &[0xAA, 0xBB, 0, 1, 1, 0, 1, 1]; // left 16 bits, two one-bit MPIs (EdDSA legacy)
+            let level = std::cell::Cell::new(0usize);
             let mk = |unhashed: &[u8]| -> Vec<u8> {
+                let v6 = all_v6 || (mixed && level.get() % 2 == 1);
+                level.set(level.get() + 1);
                 let mut b = vec![if v6 { 6 } else { 4 }, 0x19, 22, 8];
                 if v6 {
                     b.extend_from_slice(&0u32.to_be_bytes());
@@ -1049,7 +1056,7 @@ fn deep_artifact(kind: &str, depth: usize) -> Vec<u8> {
                 let mut sub = subpacket_len(body.len() + 1);
                 sub.push(32); // embedded signature
                 sub.extend_from_slice(&body);
-                if !v6 && sub.len() > 65535 {
+                if !all_v6 && sub.len() > 65535 {
                     break;
                 }
                 body = mk(&sub);
